@@ -1,4 +1,5 @@
 import FlatModel.Props.C09
+import FlatModel.Props.UniverseOps
 #print axioms FC.C10.reserveItems_invisible
 #print axioms FC.C10.reserveRegions_invisible
 #print axioms FC.C10.merge_fresh
@@ -6,3 +7,9 @@ import FlatModel.Props.C09
 #print axioms FC.C10.stack_withCapacity_default
 #print axioms FC.C02.frame_reserve
 #print axioms FC.reach_inv
+#print axioms FC.Universe.C10_every_composition
+#print axioms FC.Universe.C10_merge_every_composition
+#print axioms FC.Universe.C10_merged_empty
+#print axioms FC.Universe.C10_stack_every_composition
+#print axioms FC.Universe.huffman_not_lawfulMerge
+#print axioms FC.Universe.huffmanU8_not_lawfulMerge
